@@ -39,12 +39,14 @@ pub struct Root {
     pub deliveries_horizon: usize,
     pub bound: usize,
     pub discovery_faults: bool,
+    /// index into s3sim::FRAMINGS: how every response body of the run is framed on the wire
+    pub framing: usize,
 }
 
 impl Root {
     pub fn json(&self) -> Value {
         json!({"v0": self.v0, "s0": self.s0, "stop_at": self.stop_at, "drop_after": self.drop_after, "regime": self.regime, "next_present": self.next_present,
-            "with_stats": self.with_stats, "deliveries_horizon": self.deliveries_horizon, "bound": self.bound, "discovery_faults": self.discovery_faults})
+            "with_stats": self.with_stats, "deliveries_horizon": self.deliveries_horizon, "bound": self.bound, "discovery_faults": self.discovery_faults, "framing": self.framing})
     }
     pub fn from_json(v: &Value) -> Root {
         Root {
@@ -55,6 +57,7 @@ impl Root {
             regime: v["regime"].as_u64().unwrap_or(0) as u8,
             next_present: v["next_present"].as_u64().unwrap_or(1) as usize,
             with_stats: v["with_stats"].as_bool().unwrap_or(false),
+            framing: v["framing"].as_u64().unwrap_or(0) as usize,
             deliveries_horizon: v["deliveries_horizon"].as_u64().unwrap_or(6) as usize,
             bound: v["bound"].as_u64().unwrap_or(1) as usize,
             discovery_faults: v["discovery_faults"].as_bool().unwrap_or(false),
@@ -496,6 +499,7 @@ impl Observation {
 
 /// One execution of the real poller for (root, choice prefix).
 pub fn execute(sim: &Sim, root: &Root, choices: Choices) -> Observation {
+    crate::s3sim::set_default_framing(crate::s3sim::FRAMINGS[root.framing % crate::s3sim::FRAMINGS.len()]);
     let rt = runtime();
     let base_ms = match root.regime {
         0 | 2 => 1_723_552_410_000 - 700_000,
@@ -732,7 +736,7 @@ pub fn judge(ctx: &Ctx, root: &Root, o: &Observation, st: &mut Stats) -> String 
 
 pub fn roots(thorough: bool) -> Vec<Root> {
     let mut out = Vec::new();
-    let base = Root { v0: 500, s0: 30, stop_at: None, drop_after: None, regime: 0, next_present: 1, with_stats: false, deliveries_horizon: 6, bound: if thorough { 2 } else { 1 }, discovery_faults: false };
+    let base = Root { v0: 500, s0: 30, stop_at: None, drop_after: None, regime: 0, next_present: 1, with_stats: false, deliveries_horizon: 6, bound: if thorough { 2 } else { 1 }, discovery_faults: false, framing: 0 };
     let vs = [1usize, 500, 997, 998, 999];
     let ss = [1usize, 2, 30, 53, 54, 55];
     for &v0 in &vs {
@@ -779,6 +783,12 @@ pub fn roots(thorough: bool) -> Vec<Root> {
     // two volume boundaries in one run (998/54 -> 999 -> 1), 62 deliveries
     for with_stats in [false, true] {
         out.push(Root { v0: 998, s0: 54, deliveries_horizon: 62, with_stats, bound: 0, next_present: if with_stats { 2 } else { 1 }, ..base.clone() });
+    }
+    // body framing: chunked transfer encoding (1000- and 7-byte chunks) and close-delimited bodies
+    for framing in 1..crate::s3sim::FRAMINGS.len() {
+        for (v0, s0) in [(500usize, 30usize), (999, 54)] {
+            out.push(Root { v0, s0, framing, bound: 1, with_stats: framing % 2 == 1, ..base.clone() });
+        }
     }
     // discovery faults (only panic / hang / fidelity judged)
     for (v0, s0) in [(500usize, 30usize), (999, 55), (1, 1)] {
